@@ -126,13 +126,20 @@ def sample (O : Oracle) (k se : Nat) (parts : List (List α)) : Res α :=
   | none => .splitEveryError
   | some sn => finalize k sn
 
-/-- `bag.random.choices(population, k, split_every)`; errors inside tasks are carried as `none` -/
+/-- the aggregate of `choices`: an error in any input task propagates (`none`) -/
+def choicesAgg (k : Nat) (pick : Nat → Nat) (inputs : List (Option (List α × Nat))) : Option (List α × Nat) :=
+  match inputs.mapM id with
+  | none => none
+  | some ins => choicesReduce k pick ins
+
+/-- the reduction `choices` builds; errors inside tasks are carried as `none` -/
+def choicesRed (O : Oracle) (k se : Nat) (parts : List (List α)) : Option (Option (List α × Nat)) :=
+  reductionIx (fun i p => choicesMapPartitions k (O.geom i) p)
+    (fun depth i inputs => choicesAgg k (O.pick depth i) inputs) se parts
+
+/-- `bag.random.choices(population, k, split_every)` -/
 def choices (O : Oracle) (k se : Nat) (parts : List (List α)) : Res α :=
-  match reductionIx (β := Option (List α × Nat)) (fun i p => choicesMapPartitions k (O.geom i) p)
-      (fun depth i inputs =>
-        match inputs.mapM id with
-        | none => none
-        | some ins => choicesReduce k (O.pick depth i) ins) se parts with
+  match choicesRed O k se parts with
   | none => .splitEveryError
   | some none => .otherError
   | some (some sn) => finalize k sn
